@@ -181,14 +181,16 @@ def r4(ctx):
     # the commanded value is validated against the datatype before the slot changes
     val_stores = [s for s in sts if isinstance(s, ast.Expr) and norm(s.value.args[2]) == "value"]
     ok = len(val_stores) >= 1
-    from .common import conds_before, consistent
+    from .common import conds_before, conds_before_sym, consistent
     from ..guards import conjuncts
+    from ..astutil import norm_nc
     for s in val_stores:
         for p in enumerate_paths(wp):
-            cs = conds_before(p, s)
-            if cs is None or not consistent(cs):
+            cs0 = conds_before(p, s)
+            if cs0 is None or not consistent(cs0):
                 continue
-            atoms = [(norm(a), pol) for t, pl in cs for a, pol in conjuncts(t, pl)]
+            cs = conds_before_sym(p, s) or cs0
+            atoms = [(norm_nc(a), pol) for t, pl in cs for a, pol in conjuncts(t, pl)]
             if not (("datatype.is_valid(value)", True) in atoms or ("isinstance(value, datatype)", True) in atoms):
                 ok = False
     ctx.check("_Commando.WriteProperty:validates-before-slot-change", ok, where(m, wp),
